@@ -1,5 +1,7 @@
 package driver
 
+import "time"
+
 func init() {
 	register(&PropSpec{
 		ID: "C17",
@@ -7,10 +9,12 @@ func init() {
 			return []Job{
 				{Dir: "cmpp", Harness: "VH_C17_compose"},
 				{Dir: "cmpp", Harness: "VH_C17_splitcombine"},
+				{Dir: "cmpp", Harness: "VH_C17_string", Timeout: 10 * time.Minute},
 			}
 		},
-		Functions: []string{"cmpp.CombineMsgID", "cmpp.SplitMsgID"},
+		Functions: []string{"cmpp.CombineMsgID", "cmpp.SplitMsgID", "cmpp.MsgID2String", "cmpp.MsgIDString2Uint64"},
+		Stubs:     []string{"fmt.Sprintf %0Nd: digit variables d_i in 0..9 with sum d_i*10^i == value", "fmt.Sscanf: model for formats of %Nd verbs on all-digit input (each verb takes up to N digits, trailing input ignored); other inputs/formats are reported as not encodable"},
 		Bounds:    map[string]string{"ids": "all 2^64 (bit-vector width is the only bound)", "fields": "all in-range tuples (month<=15, day<=31, hour<=31, minute<=63, second<=63, gateway<2^22, sequence<2^16)"},
-		Outside:   []string{"32-bit platforms"},
+		Outside:   []string{"32-bit platforms", "MsgIDString2Uint64 on strings that MsgID2String does not produce (signs, spaces, non-digits)", "fmt.Sscanf / fmt.Sprintf themselves (modelled)"},
 	})
 }
